@@ -118,7 +118,7 @@ def run(ctx):
         if it.get("kind") == "UnaryOperator" and it.get("opcode") == "&":
             itr_array[A.ref_id(A.kids(it)[0])] = A.ref_id(a[1])
     ctx.require(len(itr_array) == 2, "first_equal_index: iterator initialisations not found")
-    sets = list(A.calls_in(us.body(fn), "rtosc_arg_arr_len_set"))
+    sets = list(A.calls_in(us.body(fn), "rtosc_arg_arr_len_set")) + list(A.calls_in(us.body(fn), "rtosc_av_arr_len_set"))     # (on the value's union / on the value itself)
     ctx.require(len(sets) == 1, "first_equal_index: expected one rtosc_arg_arr_len_set")
     a = A.kids(sets[0])[1:]
     def _param_origin(e, depth=0):
